@@ -9,7 +9,8 @@ let cmp_of = function
   | "half" -> cmp_half
   | _ -> raise Not_found
 
-let kind_of = function "ss" -> StaticSet | "fsv" | "fip" -> FlatSet | _ -> raise Not_found
+(* sst / fst: the same containers over the tracked (non-trivial) key type of the harness *)
+let kind_of = function "ss" | "sst" -> StaticSet | "fsv" | "fip" | "fst" -> FlatSet | _ -> raise Not_found
 
 (* step parser: (code, op) list *)
 let rec parse_steps t acc =
@@ -23,7 +24,9 @@ let rec parse_steps t acc =
       | "ih" -> let h = next_nat t in let k = next_z t in InsertHint (h, k)
       | "ir" -> InsertRange (next_zlist t)
       | "as" -> Assign (next_zlist t)
-      | "asu" -> AssignSorted (next_zlist t)
+      | "asu" | "asui" -> AssignSorted (next_zlist t)   (* container / iterator-pair overload *)
+      | "asi" -> AssignIter (next_zlist t)
+      | "cp" -> CopyFrom
       | "rp" -> Replace (next_zlist t)
       | "ek" -> EraseKey (next_z t)
       | "ep" -> ErasePos (next_nat t)
